@@ -16,6 +16,11 @@ META = {
         'outside': ['cli.rs value parsing', 'tables beyond 2 x 4 (row logic is per row; alignment is a per-row copy)', 'lower-case symbols in the stored table (never stored)', 'rows without any base (never stored)'],
         'assumptions': ['Kani/CBMC model of rustc MIR semantics', 'models of ndarray::Array2 and hashbrown::HashSet in /verif/models meet the documented contracts', 'stored rows contain at least one base and counts equal the number of non-gap symbols (what build/merge/delete store)'],
     },
+    'C04': {
+        'bounds': 'AlnWriter: one step / finalise from every state satisfying the invariant, contig layouts of total length 12-17 at h=2 and h=3 (k=5, 7); mapping and reference indexing: <= 3 reference k-mers, k=5, references <= 12 bases',
+        'outside': ['FASTA text of the output', 'rayon schedule of pseudoalignment (sequential model)', 'references longer than the bounds', 'k > 7 for the writer (its code depends on k only through h)', 'generic_modes::map beyond the calls listed'],
+        'assumptions': ['Kani/CBMC model of rustc MIR semantics', 'the AlnWriter representation invariant of DESIGN appendix B (checked inductive: init + step; its adequacy is cross-checked by C04.hist without the invariant)', 'centres arrive in reference order and are valid (delivered by RefSka::new/map: C01.win, C04.map)', 'library models in /verif/models'],
+    },
     'C16': {
         'bounds': 'u64: all odd k in 5..=31; u128: all odd k in 5..=63; windows of k+2 bases for rolling; see per-obligation bounds',
         'outside': ['String-producing decoders decode_kmer / skalo_decode_kmer unless listed as decided', 'hash_val (ahash)'],
